@@ -41,8 +41,11 @@ impl ContentEncoding {
     #[verifier::external_body]
     pub fn as_tag_value(&self) -> (r: &'static str) { unimplemented!() }
 }
+pub uninterp spec fn content_bytes(c: Seq<char>, e: ContentEncoding) -> Option<Seq<u8>>;   // util::decode_content (base64 crate: ASSUMED a function of its input)
 #[verifier::external_body]
-pub fn decode_content(content: &str, encoding: ContentEncoding, label: &str) -> (r: Result<(Vec<u8>, &'static str), String>) { unimplemented!() }
+pub fn decode_content(content: &str, encoding: ContentEncoding, label: &str) -> (r: Result<(Vec<u8>, &'static str), String>)
+    ensures (r is Ok) == (content_bytes(content@, encoding) is Some), r is Ok ==> r->Ok_0.0@ == content_bytes(content@, encoding)->Some_0
+{ unimplemented!() }
 
 #[verifier::external_body] pub struct StagedWelcome { _p: u8 }
 #[verifier::external_body] pub struct WelcomeJoinError { _p: u8 }
